@@ -1,3 +1,4 @@
+import QF.Props.Tie
 import QF.Core.Filter
 /-!
 # C02 — Filter keeps exactly the satisfying rows, in order
@@ -23,5 +24,31 @@ theorem filter_refines_unfolded (c : F.Clause) (hs : c.sound) (hw : c.wellTyped 
     (f : F.Frame) (hnd : f.index.Nodup) (he : f.err = false) :
     (c.filter f).err = false ∧ (c.filter f).index = f.index.filter c.sem :=
   F.filter_refines c hs hw f hnd he
+
+/-- T1: the functions this property's mirror model follows have today the source text the model was written against. -/
+theorem tie : Tie.sameAll ["qframe.filter", "qframe.orFrames", "qframe.OrClause.filter", "qframe.AndClause.filter", "qframe.NotClause.filter", "index.Filter", "ecolumn.Column.filterBuiltIn", "ecolumn.filterLike", "ecolumn.in", "scolumn.regexFilter"] = true := by decide
+
+/-! ### Facts about today's source (regenerated into `QF.Gen` on every run) -/
+
+/-- Pairs of comparators that are complements of each other on every cell, null/NaN included. -/
+def complementPairs : List (String × String) :=
+  [("=", "!="), ("in", "not in"), ("not in", "in"), ("isnull", "isnotnull"), ("isnotnull", "isnull")]
+
+/-- Every entry of `filter.Inverse` is a complement pair: the inverse shortcut of `QFrame.filter` is sound
+(hypothesis `sound` of `filter_refines` for inverted leaves). With `>`↦`<=` in the table this fails. -/
+theorem gen_inverse_complement : ∀ p ∈ Gen.inverse, p ∈ complementPairs := by decide
+
+/-- A kernel accumulates into the shared mask if it only touches entries that are still false (`if !x`), delegates to
+such a kernel, does nothing, or only ever sets entries to true. -/
+def accumulating (k : String × String × String × String) : Bool :=
+  k.2.2.1 == "guarded" || k.2.2.1 == "guarded+pre" || k.2.2.1 == "delegates" || k.2.2.1 == "noop" ||
+  (k.2.2.1 == "unguarded" && k.2.2.2 == "true")
+
+/-- Every filter kernel of the five column packages accumulates (hypothesis `sound` of `filter_refines` for the
+kernels of one OR group). A kernel that overwrites the mask, like the original int `isnull`, is a counterexample. -/
+theorem gen_kernels_accumulate : Gen.kernels.all accumulating = true := by decide
+
+/-- The comparator tables and the kernels are the ones the spec's `leafPred` was written against. -/
+theorem gen_kernels_same : Tie.kernelsSame = true := by decide
 
 end QF.Props.C02
